@@ -162,22 +162,22 @@ Opaque dstore dremove.
 Definition codec_ok : Prop :=
   (forall h a x b, enc h a x = Some b -> dec h a b = Some x) /\ (forall f b, unpack f (pack f b) = Some b).
 
-Lemma decode_encode (F : fset) x p b : codec_ok -> rargs F = wargs F -> zc F = zd F ->
-  encode F x p = Some b -> decode F p b = Good (post F x).
+Lemma decode_encode (F : fset) x en b : codec_ok -> rargs F = wargs F -> zc F = zd F ->
+  encode F x (e_path en) = Some b -> decode F en b = Good (post F en x).
 Proof.
   intros [Hd Hp] Ha Hz He. unfold C11_fsops.encode in He. unfold C11_fsops.decode.
   destruct (enc (hid F) (wargs F) x) as [b0|] eqn:E; [|discriminate]. injection He as <-.
-  rewrite <- Hz, Ha. destruct (if zc F then zfmt p else None) as [f|].
+  rewrite <- Hz, Ha. destruct (if zc F then zfmt (e_path en) else None) as [f|].
   - rewrite Hp. rewrite (Hd _ _ _ _ E). reflexivity.
   - rewrite (Hd _ _ _ _ E). reflexivity.
 Qed.
 
-Theorem write_read_thm (F : fset) x p (d d' : disk) : codec_ok -> rargs F = wargs F -> zc F = zd F ->
-  write_file F x p d = Good d' ->
-  read_file F p d' = Good (post F x) /\ (forall r, r <> p -> dlook r d' = dlook r d).
+Theorem write_read_thm (F : fset) x en (d d' : disk) : codec_ok -> rargs F = wargs F -> zc F = zd F ->
+  write_file F x (e_path en) d = Good d' ->
+  read_file F en d' = Good (post F en x) /\ (forall r, r <> e_path en -> dlook r d' = dlook r d).
 Proof.
   intros Hc Ha Hz Hw. unfold C11_fsops.write_file in Hw.
-  destruct (encode F x p) as [b|] eqn:E; [|discriminate]. injection Hw as <-. split.
+  destruct (encode F x (e_path en)) as [b|] eqn:E; [|discriminate]. injection Hw as <-. split.
   - unfold C11_fsops.read_file. rewrite dlook_dstore_same. eapply decode_encode; eauto.
   - intros r Hr. apply dlook_dstore_other. exact Hr.
 Qed.
@@ -208,7 +208,7 @@ Qed.
 
 (* the content the target gets *)
 Definition new_content (F G : fset) (conv : option (Data -> Data)) (en : entry) (q : str) (b : Bytes) : res Bytes :=
-  match conv with Some f => recode F G f (e_path en) q b | None => Good b end.
+  match conv with Some f => recode F G f en q b | None => Good b end.
 
 Lemma move1_spec (F G : fset) copy conv (d d' : disk) en q :
   target G en = Ok q -> dlook q d = None -> move1 F G copy conv d en = Good d' ->
@@ -220,7 +220,7 @@ Proof.
   destruct (dlook (e_path en) d) as [b|] eqn:Eb; [|discriminate].
   assert (Hpq : e_path en <> q) by (intro E; rewrite E in Eb; congruence).
   exists b. unfold new_content. destruct conv as [f|].
-  - destruct (recode F G f (e_path en) q b) as [c|er] eqn:Er; cbn [rbind] in Hm; [|discriminate].
+  - destruct (recode F G f en q b) as [c|er] eqn:Er; cbn [rbind] in Hm; [|discriminate].
     exists c. split; [reflexivity|]. split; [reflexivity|]. injection Hm as <-. destruct copy.
     + split; [apply dlook_dstore_same|]. split; [rewrite dlook_dstore_other by exact Hpq; exact Eb|].
       intros r Hr _. apply dlook_dstore_other. exact Hr.
@@ -387,11 +387,11 @@ Proof.
 Qed.
 
 (* converted content reads back through the destination as post_G (f (post_F x)) *)
-Theorem convert_reads_back_thm (F G : fset) f p q b c y : codec_ok -> rargs G = wargs G -> zc G = zd G ->
-  decode F p b = Good y -> recode F G f p q b = Good c -> decode G q c = Good (post G (f y)).
+Theorem convert_reads_back_thm (F G : fset) f en en' b c y : codec_ok -> rargs G = wargs G -> zc G = zd G ->
+  decode F en b = Good y -> recode F G f en (e_path en') b = Good c -> decode G en' c = Good (post G en' (f y)).
 Proof.
   intros Hc Ha Hz Hd Hr. unfold C11_fsops.recode in Hr. rewrite Hd in Hr. cbn [rbind] in Hr.
-  destruct (encode G (f y) q) as [c'|] eqn:E; [|discriminate]. injection Hr as <-.
+  destruct (encode G (f y) (e_path en')) as [c'|] eqn:E; [|discriminate]. injection Hr as <-.
   eapply decode_encode; eauto.
 Qed.
 
@@ -450,7 +450,7 @@ Proof.
     - apply dlook_dstore_other. exact Hq.
     - rewrite dlook_dremove_other by (apply Hp; reflexivity). apply dlook_dstore_other. exact Hq. }
   destruct conv as [f|].
-  - destruct (recode F G f (e_path en) q b) as [c|]; cbn [rbind] in Hm; [|discriminate]. injection Hm as <-. apply Hgen.
+  - destruct (recode F G f en q b) as [c|]; cbn [rbind] in Hm; [|discriminate]. injection Hm as <-. apply Hgen.
   - destruct (str_eqb (e_path en) q).
     + destruct copy; [discriminate|]. injection Hm as <-. reflexivity.
     + injection Hm as <-. apply Hgen.
@@ -481,10 +481,11 @@ Proof.
     injection Hs as <- _. apply dlook_dstore_other. intro E. apply Hr. left. symmetry. exact E.
   - unfold C11_fsops.write_file in Hs. destruct (encode F x p) as [b|]; [|discriminate]. cbn [rbind] in Hs.
     injection Hs as <- _. apply dlook_dstore_other. intro E. apply Hr. left. symmetry. exact E.
-  - destruct (read_file F p d); [|discriminate]. injection Hs as <- _. reflexivity.
+  - destruct (read_file F en d); [|discriminate]. injection Hs as <- _. reflexivity.
   - destruct (render (tpl F) t t []) as [p|].
-    + destruct (dlook p d).
-      * destruct (read_file F p d); [|discriminate]. injection Hs as <- _. reflexivity.
+    + destruct (dlook p d); [destruct (entry_of F p) as [|en0 l0]|].
+      * injection Hs as <- _. reflexivity.
+      * destruct (read_file F en0 d); [|discriminate]. injection Hs as <- _. reflexivity.
       * injection Hs as <- _. reflexivity.
     + injection Hs as <- _. reflexivity.
   - destruct (find F sl d) as [es|]; [|discriminate]. cbn [rbind] in Hs.
@@ -750,10 +751,10 @@ Notation foldP := (foldP Bytes).
 
 (* the content the target gets, or why it gets none *)
 Definition new_contentp (F G : fset) (conv : option (Data -> option Data)) (en : entry) (q : str) (b : Bytes) : res Bytes :=
-  match conv with Some f => recodep F G f (e_path en) q b | None => Good b end.
+  match conv with Some f => recodep F G f en q b | None => Good b end.
 
 (* a conversion that never fails is the conversion of `move` *)
-Lemma recodep_total (F G : fset) f p q b : recodep F G (fun x => Some (f x)) p q b = recode F G f p q b.
+Lemma recodep_total (F G : fset) f (en : entry) q b : recodep F G (fun x => Some (f x)) en q b = recode F G f en q b.
 Proof. reflexivity. Qed.
 Lemma move1p_total (F G : fset) copy conv (d : disk) en :
   move1p F G copy (option_map (fun f x => Some (f x)) conv) d en = move1 F G copy conv d en.
@@ -769,7 +770,7 @@ Proof.
   destruct (dlook (e_path en) d) as [b|] eqn:Eb; [|discriminate].
   assert (Hpq : e_path en <> q) by (intro E; rewrite E in Eb; congruence).
   exists b. unfold new_contentp. destruct conv as [f|].
-  - destruct (recodep F G f (e_path en) q b) as [c|er] eqn:Er; cbn [rbind] in Hm; [|discriminate].
+  - destruct (recodep F G f en q b) as [c|er] eqn:Er; cbn [rbind] in Hm; [|discriminate].
     exists c. split; [reflexivity|]. split; [reflexivity|]. injection Hm as <-. destruct copy.
     + split; [apply dlook_dstore_same|]. split; [rewrite dlook_dstore_other by exact Hpq; exact Eb|].
       intros r Hr _. apply dlook_dstore_other. exact Hr.
@@ -980,6 +981,124 @@ Proof.
     + intros r Hr Hrq. rewrite <- Heq. apply Hframe; assumption.
 Qed.
 
+(* ------------------------------------------------------------------ post_reader is handed the file's own FileInfo *)
+
+Notation handler_read := (handler_read Data Bytes dec unpack).
+
+(* reading = what the handler returns for the (decompressed) content, then post_reader on the FileInfo handed in *)
+Lemma decode_factor (F : fset) en b :
+  decode F en b = rbind (handler_read F (e_path en) b) (fun x => Good (post F en x)).
+Proof.
+  unfold C11_fsops.decode, C11_fsops.handler_read.
+  destruct (match (if zd F then zfmt (e_path en) else None) with Some f => unpack f b | None => Some b end) as [raw|]; [|reflexivity].
+  destruct (dec (hid F) (rargs F) raw); reflexivity.
+Qed.
+
+Theorem read_own_entry_thm (F : fset) en (d : disk) :
+  read_file F en d = match dlook (e_path en) d with
+                     | None => Bad ENoFile
+                     | Some b => rbind (handler_read F (e_path en) b) (fun x => Good (post F en x))
+                     end /\
+  step (ORead F en) d = rbind (read_file F en d) (fun x => Good (d, VData x)).
+Proof.
+  split; [|reflexivity]. unfold C11_fsops.read_file. destruct (dlook (e_path en) d); [apply decode_factor|reflexivity].
+Qed.
+
+(* fileset[t], exact-name short cut: the FileInfo is get_info(name) -- the entry the name parses to *)
+Theorem get_own_entry_thm (F : fset) t p s e a b (d : disk) :
+  render (tpl F) t t [] = Ok p -> dlook p d = Some b -> finfo F p = Ok (s, e, a) ->
+  step (OGet F t) d = rbind (handler_read F p b) (fun x => Good (d, VData (post F (En p s e a) x))).
+Proof.
+  intros Hr Hb Hi. cbn [C11_fsops.step]. rewrite Hr, Hb. unfold C11_fsops.entry_of. rewrite Hi.
+  unfold C11_fsops.read_file. cbn [e_path]. rewrite Hb. rewrite decode_factor. cbn [e_path].
+  destruct (handler_read F p b); reflexivity.
+Qed.
+
+(* collect / fileset[s:e]: every file found is read, each through post_reader with ITS OWN entry *)
+Lemma mapM_forall2 {A B} (f : A -> res B) : forall l r, mapM f l = Good r -> Forall2 (fun a b => f a = Good b) l r.
+Proof.
+  induction l as [|x l IH]; intros r H.
+  - cbn in H. injection H as <-. constructor.
+  - cbn [C11_fsops.mapM] in H. destruct (f x) as [y|] eqn:E; [|discriminate]. cbn [rbind] in H.
+    destruct (mapM f l) as [ys|]; [|discriminate]. cbn [rbind] in H. injection H as <-.
+    constructor; [exact E|apply IH; reflexivity].
+Qed.
+
+Theorem collect_own_entries_thm (F : fset) sl (d d' : disk) l :
+  step (OCollect F sl) d = Good (d', VList l) ->
+  d' = d /\ exists es, find F sl d = Good es /\
+  Forall2 (fun en py => fst py = e_path en /\ finfo F (e_path en) = Ok (e_s en, e_e en, e_attr en) /\
+                        exists b x, dlook (e_path en) d = Some b /\ handler_read F (e_path en) b = Good x /\
+                                    snd py = post F en x) es l.
+Proof.
+  cbn [C11_fsops.step]. destruct (find F sl d) as [es|] eqn:Ef; [|discriminate]. cbn [rbind].
+  destruct (mapM _ es) as [l0|] eqn:Em; [|discriminate]. cbn [rbind]. intro H. injection H as <- <-.
+  split; [reflexivity|]. exists es. split; [reflexivity|].
+  apply mapM_forall2 in Em. pose proof (find_entries F sl d es Ef) as Hes.
+  revert Em. apply Forall2_impl_in. intros en py Hin _ H.
+  destruct (read_own_entry_thm F en d) as [Hr _]. rewrite Hr in H.
+  destruct (dlook (e_path en) d) as [b|]; [|discriminate].
+  destruct (handler_read F (e_path en) b) as [x|] eqn:Eh; [|discriminate]. cbn [rbind] in H. injection H as <-.
+  split; [reflexivity|]. split; [apply (entries_parsed F sl d); rewrite <- Hes; exact Hin|].
+  exists b, x. split; [reflexivity|]. split; [exact Eh|reflexivity].
+Qed.
+
+(* move(convert=f): the file is read through the source -- post_reader with the entry of the file itself -- before f *)
+Theorem convert_own_entry_thm (F G : fset) f en q b c :
+  new_content F G (Some f) en q b = Good c ->
+  exists x, handler_read F (e_path en) b = Good x /\ encode G (f (post F en x)) q = Some c.
+Proof.
+  unfold new_content, C11_fsops.recode. rewrite decode_factor.
+  destruct (handler_read F (e_path en) b) as [x|]; [|discriminate]. cbn [rbind].
+  destruct (encode G (f (post F en x)) q) as [c'|] eqn:E; [|discriminate]. intro H. injection H as <-.
+  exists x. split; [reflexivity|exact E].
+Qed.
+
+(* transparent decompression: the handler returns for the packed content under a name with a compression suffix what it
+   returns for the plain content under a name without; post_reader then sees the entry of the file that was asked for *)
+Theorem decompression_transparent_thm (F : fset) p p' f b : codec_ok -> zd F = true ->
+  zfmt p' = Some f -> zfmt p = None -> handler_read F p' (pack f b) = handler_read F p b.
+Proof.
+  intros [_ Hp] Hz Hf Hn. unfold C11_fsops.handler_read. rewrite Hz, Hf, Hn, Hp. reflexivity.
+Qed.
+
+(* ------------------------------------------------------------------ a copy is an independent file *)
+
+Lemma moved_of_in (F G : fset) copy conv (d d' : disk) es qs en q :
+  Forall2 (moved F G copy conv d d') es qs -> In en es -> target G en = Ok q -> moved F G copy conv d d' en q.
+Proof.
+  intros H2 Hin Ht. destruct (forall2_in_l _ es qs en H2 Hin) as (q' & _ & Hm).
+  destruct Hm as (Ht' & Hrest). rewrite Ht in Ht'. injection Ht' as <-. split; [exact Ht|exact Hrest].
+Qed.
+
+Theorem copy_independent_thm (F G H : fset) conv sl (d d1 d2 : disk) es qs en q x :
+  find F sl d = Good es ->
+  Forall2 (fun en q => target G en = Ok q) es qs ->
+  NoDup (map e_path es) -> NoDup qs ->
+  (forall q, In q qs -> dlook q d = None) ->
+  (forall en, In en es -> dlook (e_path en) d <> None) ->
+  move F G true conv sl d = Good d1 ->
+  In en es -> target G en = Ok q ->
+  exists b c, dlook (e_path en) d = Some b /\ new_content F G conv en q b = Good c /\
+    dlook (e_path en) d1 = Some b /\ dlook q d1 = Some c /\ e_path en <> q /\
+    (write_file H x (e_path en) d1 = Good d2 -> dlook q d2 = Some c) /\
+    (write_file H x q d1 = Good d2 -> dlook (e_path en) d2 = Some b).
+Proof.
+  intros Hf H2 Np Nq Hfresh Hex Hm Hin Ht.
+  destruct (move_conserves_thm F G true conv sl d d1 es qs Hf H2 Np Nq Hfresh Hex Hm) as [Hall _].
+  destruct (moved_of_in F G true conv d d1 es qs en q Hall Hin Ht) as (_ & b & c & Hb & Hc & Hq1 & Hp1).
+  assert (Hq0 : dlook q d = None).
+  { destruct (forall2_in_l _ es qs en H2 Hin) as (q' & Hq' & Ht'). rewrite Ht in Ht'. injection Ht' as <-.
+    apply Hfresh. exact Hq'. }
+  assert (Hpq : e_path en <> q) by (intro E; rewrite E in Hb; rewrite Hq0 in Hb; discriminate).
+  exists b, c. split; [exact Hb|]. split; [exact Hc|]. split; [exact Hp1|]. split; [exact Hq1|]. split; [exact Hpq|].
+  split; intro Hw; unfold C11_fsops.write_file in Hw.
+  - destruct (encode H x (e_path en)) as [bb|]; [|discriminate]. injection Hw as <-.
+    rewrite dlook_dstore_other; [exact Hq1|]. intro E. apply Hpq. symmetry. exact E.
+  - destruct (encode H x q) as [bb|]; [|discriminate]. injection Hw as <-.
+    rewrite dlook_dstore_other; [exact Hp1|exact Hpq].
+Qed.
+
 (* ------------------------------------------------------------------ arguments of a single call *)
 
 Variable kcode : kwargs -> Z.
@@ -999,8 +1118,8 @@ Lemma kmerge_nil dflt : kmerge dflt [] = dflt.
 Proof. reflexivity. Qed.
 
 (* read(p, **a): the handler gets {**defaults, **a} for THIS call; the object is as before *)
-Theorem read_with_args_thm (O : fobj) a p (d : disk) :
-  call_step O (CRead a p) d = (O, rbind (read_file (view O a []) p d) (fun x => Good (d, VData x))) /\
+Theorem read_with_args_thm (O : fobj) a (en : entry) (d : disk) :
+  call_step O (CRead a en) d = (O, rbind (read_file (view O a []) en d) (fun x => Good (d, VData x))) /\
   rargs (view O a []) = kcode (kmerge (o_rd O) a) /\
   (forall k, klook k (kmerge (o_rd O) a) = match klook k a with Some v => Some v | None => klook k (o_rd O) end) /\
   view O [] [] = FSet (o_tpl O) (o_cov O) (o_hid O) (kcode (o_rd O)) (kcode (o_wd O)) (o_post O) (o_zc O) (o_zd O).
@@ -1047,16 +1166,16 @@ Qed.
 
 (* written with the write arguments of one call, read with the read arguments of another: the object comes back
    when the two dictionaries mean the same to the handler *)
-Theorem write_read_with_args_thm (O : fobj) aw ar x p (d d' : disk) : codec_ok ->
+Theorem write_read_with_args_thm (O : fobj) aw ar x (en : entry) (d d' : disk) : codec_ok ->
   kcode (kmerge (o_rd O) ar) = kcode (kmerge (o_wd O) aw) -> o_zc O = o_zd O ->
-  snd (call_step O (CWrite aw x p) d) = Good (d', VNone) ->
-  snd (call_step O (CRead ar p) d') = Good (d', VData (o_post O x)) /\ (forall r, r <> p -> dlook r d' = dlook r d).
+  snd (call_step O (CWrite aw x (e_path en)) d) = Good (d', VNone) ->
+  snd (call_step O (CRead ar en) d') = Good (d', VData (o_post O en x)) /\ (forall r, r <> e_path en -> dlook r d' = dlook r d).
 Proof.
   intros Hc Ha Hz Hw. cbn [C11_fsops.call_step snd C11_fsops.step] in *.
-  destruct (write_file (view O [] aw) x p d) as [d1|er] eqn:E; [|discriminate]. cbn [rbind] in Hw. injection Hw as <-.
-  change (write_file (view O [] aw) x p d) with (write_file (view O ar aw) x p d) in E.
-  destruct (write_read_thm (view O ar aw) x p d d1 Hc Ha Hz E) as [Hr Hfr].
-  change (read_file (view O ar []) p d1) with (read_file (view O ar aw) p d1). rewrite Hr. split; [reflexivity|exact Hfr].
+  destruct (write_file (view O [] aw) x (e_path en) d) as [d1|er] eqn:E; [|discriminate]. cbn [rbind] in Hw. injection Hw as <-.
+  change (write_file (view O [] aw) x (e_path en) d) with (write_file (view O ar aw) x (e_path en) d) in E.
+  destruct (write_read_thm (view O ar aw) x en d d1 Hc Ha Hz E) as [Hr Hfr].
+  change (read_file (view O ar []) en d1) with (read_file (view O ar aw) en d1). rewrite Hr. split; [reflexivity|exact Hfr].
 Qed.
 
 End Proofs.
